@@ -40,6 +40,14 @@ SPECS = {
         search=False,
         explanation="compare/3 on pairs and triples rendered through all construction paths, ==/2, the order operators of bootstrap.pl, sort/2 with duplicates, keysort/2 stability on long lists; the model's order and sort evaluated on the abstract terms",
     ),
+    "C18": dict(
+        level="proof", props_deps=["Proofs/OpTable.v"], model_deps=["Model/OpCheck.v"],
+        trusted=COMMON_TRUSTED + ["hand-written Model/OpTable.v (Op, validateOp, operators.define/remove), tied by the correspondence run",
+                                  "the initial table is recomputed in Coq from the op/3 directives of bootstrap.pl (Gen/Bootstrap_gen.v)"],
+        assumptions=["current_op/3 is observed through findall/3 with all three arguments unbound; map iteration order is ignored (sets are compared)"],
+        search=False,
+        explanation="histories of op/3 calls: outcome of every call and the whole table after every call compared with the model; ISO restrictions and failed-call-is-noop evaluated on the enumerated table; reader probed",
+    ),
     "C03": dict(
         level="proof", props_deps=["Proofs/Promise.v", "Proofs/Trampoline.v"], model_deps=ENGINE_MODEL_DEPS, trusted=ENGINE_TRUSTED,
         assumptions=["cut placements outside the property's quantifier (a cut nested in a non-top-level disjunction, in a then/else branch or under a left-nested conjunction) are not generated"],
